@@ -62,6 +62,10 @@ def row_rot(m: array[array[int, 3], 2], r: int) -> None:
     rot(m[r])
 
 
+def set2(xs: array[int, 2], i: int, v: int) -> None:
+    xs[i] = v
+
+
 def two(xs: array[int, 3], ys: array[int, 3]) -> None:
     xs[0] = ys[0] + 1
     ys[0] = xs[1] + 1
@@ -275,6 +279,25 @@ def i5(x: int, y: int) -> int:
     set_at(xs, x, y)
     r = add_at(xs, f(0), 5)
     return r + xs[0] + xs[1] * 10 + xs[2] * 100
+""",
+]
+
+C19_FIXED += [
+    """
+def i6(x: int, y: int) -> int:
+    xs = array(11, 12, 13, 14, 15)
+    a, *mid, p, q = xs
+    ys = array(x, y, 3, 4, 5)
+    *m2, r, s, t = ys
+    return a + p * 10 + q * 100 + mid[0] * 1000 + mid[1] * 10000 + r * 3 + s * 5 + t * 7 + m2[0] + m2[1] * 2
+""",
+    """
+def i7(x: int, y: int) -> int:
+    c = array(array(array(1, 2), array(3, 4)), array(array(5, 6), array(7, 8)))
+    set2(c[f(0) % 2][1], 0, y)
+    t = c[g(1) % 2][0][1]
+    c[h(2) % 2][1][0] += 5
+    return t + c[0][1][0] + c[1][1][0] * 10 + c[0][1][1] * 100
 """,
 ]
 
